@@ -749,6 +749,37 @@ fn write_int(rng: &mut Rng, out: &mut Out, reps: usize) {
             emit_w(out, "TInt", &format!("w{}", w), &K::Int(*w, items), &ser(&iv));
         }
     }
+    // files left by the buffered writers (closed explicitly, or just dropped: "when the writer goes out of scope, the
+    // internal buffer is flushed, the file is closed") are integer / raw vector files like any other
+    let dir = match std::env::var("VERIF_RUNDIR") {
+        Ok(d) if !d.is_empty() => std::path::PathBuf::from(d),
+        _ => std::env::temp_dir(),
+    };
+    let _ = std::fs::create_dir_all(&dir);
+    for i in 0..(8 * reps) {
+        let w = *rng.pick(&WIDTHS);
+        let len = rng.below(200) as usize;
+        let items: Vec<u64> = (0..len).map(|_| rng.next() & mask(w)).collect();
+        let path = dir.join(format!("c07-writer-{}-{}.bin", std::process::id(), i));
+        let _ = std::fs::remove_file(&path);
+        let closed = i % 2 == 0;
+        {
+            let mut wr = match rng.below(2) {
+                0 => simple_sds::int_vector::IntVectorWriter::new(&path, w as usize).unwrap(),
+                _ => simple_sds::int_vector::IntVectorWriter::with_buf_len(&path, w as usize, 1 + rng.below(70) as usize).unwrap(),
+            };
+            for x in items.iter() {
+                wr.push(*x);
+            }
+            if closed {
+                wr.close().unwrap();
+            }
+        }
+        let bytes = std::fs::read(&path).unwrap_or_default();
+        let _ = std::fs::remove_file(&path);
+        out.stat(if closed { "w.TInt.writer_closed" } else { "w.TInt.writer_dropped" });
+        emit_w(out, "TInt", if closed { "writer_closed" } else { "writer_dropped" }, &K::Int(w, items), &bytes);
+    }
     // pack(): the documented effect is the smallest width that holds every item
     for _ in 0..(6 * reps) {
         let len = rng.range(0, 60) as usize;
